@@ -607,6 +607,7 @@ pub struct Join<'a, T> {
     children: Vec<(Option<Pin<Box<dyn Future<Output = T> + Send + 'a>>>, Arc<SubWake>)>,
     results: Vec<Option<T>>,
     world: Shared,
+    spurious_done: bool,
 }
 
 impl<'a, T> Join<'a, T> {
@@ -616,6 +617,7 @@ impl<'a, T> Join<'a, T> {
             children: futs.into_iter().map(|f| (Some(f), Arc::new(SubWake { flag: AtomicBool::new(true), parent: Mutex::new(None) }))).collect(),
             results: (0..n).map(|_| None).collect(),
             world,
+            spurious_done: false,
         }
     }
 }
@@ -624,13 +626,27 @@ impl<T: Unpin> Future for Join<'_, T> {
     type Output = Vec<T>;
     fn poll(self: Pin<&mut Self>, cx: &mut Context<'_>) -> Poll<Vec<T>> {
         let this = self.get_mut();
+        this.spurious_done = false;
         for (_, sw) in &this.children {
             *sw.parent.lock().unwrap_or_else(std::sync::PoisonError::into_inner) = Some(cx.waker().clone());
         }
         loop {
-            let ready: Vec<usize> = this.children.iter().enumerate()
+            let mut ready: Vec<usize> = this.children.iter().enumerate()
                 .filter(|(_, (f, sw))| f.is_some() && sw.flag.load(Ordering::SeqCst)).map(|(i, _)| i).collect();
-            if ready.is_empty() { break; }
+            if ready.is_empty() {
+                // rarely: a spurious poll of a child that was not woken (legal for any future), at most once per poll
+                let live: Vec<usize> = this.children.iter().enumerate().filter(|(_, (f, _))| f.is_some()).map(|(i, _)| i).collect();
+                let mut w = lock(&this.world);
+                let sp = w.knobs.spurious_polls;
+                if !this.spurious_done && sp > 0 && !live.is_empty() && w.cx.ch.chance(sp, 32) {
+                    let i = live[w.cx.ch.pick(live.len() as u32) as usize];
+                    w.cx.fault("spurious_child_poll");
+                    ready.push(i);
+                    this.spurious_done = true;
+                } else {
+                    break;
+                }
+            }
             let i = {
                 let mut w = lock(&this.world);
                 let k = if ready.len() > 1 { w.cx.ch.pick(ready.len() as u32) as usize } else { 0 };
